@@ -136,6 +136,9 @@ class Readers:
                 if isinstance(v, ast.Tuple) and isinstance(v.elts[0], ast.Call):
                     c = v.elts[0]
                     ctor = (norm(c.func), [norm(a) for a in c.args])
+            elif isinstance(s, (ast.Assign, ast.AnnAssign, ast.Expr, ast.Pass)) and not ({'cursor', f.params[0]} & q.names_in(s)) \
+                    and not any(isinstance(t, ast.Name) and t.id == 'cursor' for t in (s.targets if isinstance(s, ast.Assign) else [])):
+                continue        # a statement that touches neither the buffer nor the cursor
             else:
                 raise AnalysisError(f'{f.key}: statement not understood in a reader: {norm(s)}')
         return toks, ctor
@@ -257,12 +260,15 @@ def rule_varint(ctx, rd):
     # reader: `if n < T: return n, cursor`; `if n == K: return read_le_uintW(...)`; final return
     rmap, rdirect = {}, None
     for s in rv.node.body:
-        if isinstance(s, ast.If) and isinstance(s.test, ast.Compare) and len(s.test.ops) == 1:
-            k = const_value(s.test.comparators[0])
+        vc = q.var_vs_const(s.test) if isinstance(s, ast.If) else None
+        if vc is not None:
+            _v, opn, k = vc
             ret = s.body[0] if s.body and isinstance(s.body[0], ast.Return) else None
-            if isinstance(s.test.ops[0], ast.Lt) and ret is not None:
+            if opn == '<' and ret is not None:
                 rdirect = k
-            elif isinstance(s.test.ops[0], ast.Eq) and ret is not None and isinstance(ret.value, ast.Call):
+            elif opn == '<=' and ret is not None:
+                rdirect = k + 1
+            elif opn == '==' and ret is not None and isinstance(ret.value, ast.Call):
                 nm = norm(ret.value.func)
                 if nm in rd.prims:
                     rmap[k] = rd.prims[nm][0] or f'non-struct {nm}'
@@ -275,8 +281,9 @@ def rule_varint(ctx, rd):
     for s in pv.node.body:
         ret = None
         bound = None
-        if isinstance(s, ast.If) and isinstance(s.test, ast.Compare) and isinstance(s.test.ops[0], ast.Lt):
-            bound = const_value(s.test.comparators[0])
+        vc = q.var_vs_const(s.test) if isinstance(s, ast.If) else None
+        if vc is not None and vc[1] in ('<', '<='):
+            bound = vc[2] + (1 if vc[1] == '<=' else 0)
             ret = s.body[0] if s.body and isinstance(s.body[0], ast.Return) else None
         elif isinstance(s, ast.Return):
             ret = s
@@ -348,13 +355,14 @@ def rule_trunc(ctx, rd):
     rvb = ctx.func('tx', 'read_varbytes')
     ok = False
     why = ''
-    ends = [s for s in rvb.node.body if isinstance(s, ast.Assign) and isinstance(s.value, ast.BinOp)]
+    ends = [s for s in rvb.node.body if isinstance(s, ast.Assign) and isinstance(s.value, ast.BinOp) and 'cursor' in q.names_in(s.value)]
     rets = [s for s in rvb.node.body if isinstance(s, ast.Return)]
     if len(ends) == 1 and len(rets) == 1 and isinstance(rets[0].value, ast.Tuple):
         e = ends[0]
         endv = e.targets[0].id if isinstance(e.targets[0], ast.Name) else None
-        first = rvb.node.body[[i for i, s in enumerate(rvb.node.body) if isinstance(s, ast.Assign)][0]]
-        size_var = first.targets[0].elts[0].id if isinstance(first.targets[0], ast.Tuple) else None
+        vr = [s for s in rvb.node.body if isinstance(s, ast.Assign) and isinstance(s.value, ast.Call) and norm(s.value.func) == 'read_varint'
+              and isinstance(s.targets[0], ast.Tuple)]
+        size_var = vr[0].targets[0].elts[0].id if len(vr) == 1 else None
         good_sum = isinstance(e.value.op, ast.Add) and {norm(e.value.left), norm(e.value.right)} == {'cursor', size_var}
         r = rets[0].value
         sl = r.elts[0]
@@ -371,9 +379,8 @@ def rule_trunc(ctx, rd):
     ok = False
     if len(loops) == 1 and isinstance(loops[0].iter, ast.Call) and norm(loops[0].iter.func) == 'range':
         cnt = norm(loops[0].iter.args[0]) if len(loops[0].iter.args) == 1 else None
-        first = [s for s in rm.node.body if isinstance(s, ast.Assign)][0]
-        ok = isinstance(first.targets[0], ast.Tuple) and norm(first.targets[0].elts[0]) == cnt \
-            and norm(first.value.func) == 'read_varint'
+        firsts = [s for s in rm.node.body if isinstance(s, ast.Assign) and isinstance(s.value, ast.Call) and norm(s.value.func) == 'read_varint']
+        ok = len(firsts) == 1 and isinstance(firsts[0].targets[0], ast.Tuple) and norm(firsts[0].targets[0].elts[0]) == cnt
         body_calls = [s for s in loops[0].body if isinstance(s, ast.Assign) and isinstance(s.value, ast.Call)
                       and norm(s.value.func) == rm.params[2]]
         ok = ok and len(body_calls) == 1 and norm(body_calls[0].targets[0]) in ('(item, cursor)', 'item, cursor') \
@@ -775,7 +782,7 @@ def rule_reverse(ctx):
             wl = [s for s in outer.body if isinstance(s, ast.While)]
             ok = len(apps) == 1 and len(inits) == 1 and len(wl) == 1 and q.in_body(apps[0], wl[0].body) \
                 and q.callee_name(ctx, f, apps[0].args[0]).endswith('.read_tx_and_hash') \
-                and norm(wl[0].test) == f'deserializer.cursor < {norm(sizes[0].targets[0]) if sizes else "?"}'
+                and q.cmp_matches(ctx, f, wl[0].test, f'deserializer.cursor < {norm(sizes[0].targets[0]) if sizes else "x"}')
     ctx.check(ok, 'C13.REVERSE', ctx.key(f, outer, 'pairs reversed'),
               'the transactions of a chunk are parsed to its end, collected per chunk and yielded in reverse',
               'the transactions of a chunk are not collected completely and yielded in reverse', loc=ctx.loc(f, outer))
